@@ -40,9 +40,10 @@
 //! applied to the content before the commit gives the content after it.
 //!
 //! Tiers: quick = pairs <=2 RRsets apart, all splits up to 8 RRs, faults on
-//! pairs <=1 apart over splits with <=2 cuts, edit sequences <=2; thorough =
-//! pairs <=3 apart, all splits up to 10 RRs and both question modes, faults
-//! on pairs <=2 apart over splits with <=3 cuts, edit sequences <=3.
+//! pairs <=1 apart over splits with <=1 cut (plus one RR per message), edit
+//! sequences <=2; thorough = pairs <=3 apart, all splits up to 10 RRs and both
+//! question modes, faults on pairs <=2 apart over splits with <=2 cuts (plus
+//! one RR per message), edit sequences <=3.
 //! `C10_DRY=1` only counts the cases of parts R and F (sizing aid).
 
 use bytes::{Bytes, BytesMut};
@@ -54,7 +55,7 @@ use domain::base::{Message, MessageBuilder, Rtype, Serial, Ttl};
 use domain::net::server::message::{NonUdpTransportContext, Request, TransportSpecificContext, UdpTransportContext};
 use domain::net::server::middleware::xfr::{XfrData, XfrDataProvider, XfrDataProviderError, XfrMiddlewareSvc};
 use domain::net::server::service::{Service, ServiceError, ServiceResult};
-use domain::net::xfr::protocol::XfrResponseInterpreter;
+use domain::net::xfr::protocol::{IterationError, XfrResponseInterpreter};
 use futures_util::StreamExt;
 use std::future::Future;
 use std::pin::Pin;
@@ -422,8 +423,16 @@ async fn run_pipeline(zone: &Zone, msgs: &[Bytes], rec: &mut RealRec) -> Outcome
         Err(e) => return Outcome::Err { at: 0, class: format!("updater-new:{}", err_class(format!("{e}"))) },
     };
     let mut it = XfrResponseInterpreter::new();
+    // The driver behaves like a client on a stream transport: a first IXFR
+    // message holding only the SOA is the UDP "retry over TCP" signal only
+    // if nothing follows it; otherwise the following messages are passed on.
+    let mut lone_soa_at: Option<usize> = None;
+    let lone_soa_err = |at: usize| Outcome::Err { at, class: "iter:SingleSoaIxfrTcpRetrySignal".into() };
     for (i, m) in msgs.iter().enumerate() {
         if it.is_finished() {
+            if let Some(at) = lone_soa_at {
+                return lone_soa_err(at); // the interpreter refuses to go on after the signal
+            }
             break;
         }
         let msg = match Message::from_octets(m.clone()) {
@@ -432,11 +441,21 @@ async fn run_pipeline(zone: &Zone, msgs: &[Bytes], rec: &mut RealRec) -> Outcome
         };
         let iter = match it.interpret_response(msg) {
             Ok(x) => x,
-            Err(e) => return Outcome::Err { at: i, class: format!("interp:{}", err_class(format!("{e:?}"))) },
+            Err(e) => {
+                if let (Some(at), domain::net::xfr::protocol::Error::Finished) = (lone_soa_at, &e) {
+                    return lone_soa_err(at);
+                }
+                return Outcome::Err { at: i, class: format!("interp:{}", err_class(format!("{e:?}"))) };
+            }
         };
+        lone_soa_at = None;
         for u in iter {
             let u = match u {
                 Ok(u) => u,
+                Err(IterationError::SingleSoaIxfrTcpRetrySignal) if i + 1 < msgs.len() => {
+                    lone_soa_at = Some(i);
+                    continue;
+                }
                 Err(e) => return Outcome::Err { at: i, class: format!("iter:{}", err_class(format!("{e:?}"))) },
             };
             let (commits, nm) = match &u {
